@@ -134,8 +134,13 @@ fn sender_writer(cfg: &RunCfg, oversize_stage: bool, script: Option<Vec<u8>>) ->
     writer.pending_64 = if scripted { 0 } else { gen::pick(&[0u32, 0, 8, 24]) };
     // client disappears after this many accepted bytes (None: stays)
     let client_dies = if !scripted && gen::ratio(1, 5) { Some(60 + gen::below(600) as usize) } else { None };
+    // (one in four of these is an EINTR: the sink reports Interrupted once and then works
+    // again. The response writer may give up - then the stream is dead as with a vanished
+    // client - or retry correctly; what it must not do is resend part of a chunk.)
+    let eintr = client_dies.is_some() && gen::ratio(1, 4);
     if let Some(k) = client_dies {
-        writer.fail_at = Some((k, gen::write_error_kind()));
+        writer.fail_at = Some((k, if eintr { std::io::ErrorKind::Interrupted } else { gen::write_error_kind() }));
+        writer.transient = eintr;
     }
     // stalled client: the writer is simply not polled for a while
     let stall = !scripted && gen::ratio(1, 4);
@@ -336,7 +341,12 @@ fn sender_writer(cfg: &RunCfg, oversize_stage: bool, script: Option<Vec<u8>>) ->
     let out = out_now();
     let _ = spurious_failures;
     // ---- judge the client's bytes
-    let client_alive = client_dies.is_none() || !shared.borrow().failed;
+    let client_alive = if eintr {
+        // the client is there all along; the stream is only "dead" if the writer gave up at the EINTR
+        !(shared.borrow().transient_fired && matches!(wstate, WriterState::Done(Err(_))))
+    } else {
+        client_dies.is_none() || !shared.borrow().failed
+    };
     let head_end = match out.windows(4).position(|w| w == b"\r\n\r\n") {
         Some(p) => p + 4,
         None => {
